@@ -35,9 +35,9 @@ def main():
         "setup_cmd": "./setup.sh",
         "hooks": {
             "guard": "paseto_verif",
-            "enable": "RUSTFLAGS='--cfg paseto_verif' (no hook commits exist yet: every check builds /repo with the guard off)",
+            "enable": "RUSTFLAGS='--cfg paseto_verif' (rustc cfg flag, not a cargo feature). Only the 'derived-counter-hook' stage of C03 and C07 builds /repo with it (harness/target-hook); every other stage and check builds /repo with the guard off",
             "baseline_off_cmd": "cd /repo && cargo test --workspace --no-fail-fast --offline",
-            "source_commits": [],
+            "source_commits": ["c69bcb7"],
             "add_only": True,
         },
         "engines": [
@@ -45,6 +45,9 @@ def main():
              "kind_free_text": "Rust monitor binary (path dependencies on /repo/*): seeded hostile workloads through the public API of all six backends, oracles = reference models over the other primitive family, round-trip/rejection/invocation monitors, event logs checked offline; run natively in 16 shard processes and, per stage, under Miri / valgrind memcheck / ThreadSanitizer / an LD_PRELOAD RNG shim"},
             {"name": "check", "path": "/verif/check", "serves_properties": sorted(stages.PROPS),
              "kind_free_text": "python driver: rebuilds the harness from /repo's working tree, runs stages, merges shard reports, matches known findings, writes evidence, prints verdict"},
+            {"name": "rngshim", "path": "/verif/shim/rngshim.c", "serves_properties": ["C16"], "kind_free_text": "LD_PRELOAD library interposing getrandom(3) and syscall(SYS_getrandom): per-thread counting, fail-from-k, short reads, fed bytes"},
+            {"name": "featprobe", "path": "/verif/featprobe", "serves_properties": ["C19"], "kind_free_text": "probe crates with mirrored cargo features + lib/c19.py: builds and executes every feature configuration, compares transcripts with the full build"},
+            {"name": "fuzz", "path": "/verif/fuzz", "serves_properties": ["C04"], "kind_free_text": "cargo-fuzz (libFuzzer + AddressSanitizer) target reusing the C04 oracle, thorough tier"},
         ],
         "checks": checks,
         "not_applicable": na,
